@@ -106,6 +106,21 @@ def check_dwt_forward(cfg, sizes, rnd):
                                                                        wc.dec_len, wr.dec_len, det)
 
 
+def _none_needs_unpad(detail_shapes, none_level, Ls, mode):
+    """detail_shapes[j] = spatial shape of the band-pass level j (0 = finest).  True when the low-pass that reaches the absent level is
+    longer than that level's own extent on some axis (pywt.waverec drops the extra sample there; an absent level carries no shape)"""
+    J = len(detail_shapes)
+    if none_level >= J - 1:
+        return False                      # coarsest level: the given low-pass has the level's shape
+    coarser = detail_shapes[none_level + 1]
+    own = detail_shapes[none_level]
+    for n_c, n_o, L in zip(coarser, own, Ls):
+        incoming = 2 * n_c if mode == 'periodization' else 2 * n_c - L + 2
+        if incoming > n_o:
+            return True
+    return False
+
+
 @register('dwt_inverse')
 def check_dwt_inverse(cfg, sizes, rnd):
     from pytorch_wavelets.dwt.transform1d import DWT1DInverse
@@ -133,6 +148,7 @@ def check_dwt_inverse(cfg, sizes, rnd):
         if none_level is not None and none_level < J:
             yh[none_level] = None
             ref_c[J - none_level] = None
+            rtc.EFF['none_needs_unpad'] = _none_needs_unpad([s_[-1:] for s_ in shapes[1:]][::-1], none_level, [wc.dec_len], m)
         try:
             got = build64(DWT1DInverse, wave=_mk_wave_arg(cfg, wc, wr, True), mode=mode)((yl, yh))
         except Exception as e:
@@ -154,6 +170,7 @@ def check_dwt_inverse(cfg, sizes, rnd):
     if none_level is not None and none_level < J:
         yh[none_level] = None
         ref_c[J - none_level] = tuple([None, None, None])
+        rtc.EFF['none_needs_unpad'] = _none_needs_unpad([d[0].shape[-2:] for d in ref0[1:]][::-1], none_level, [wc.dec_len, wr.dec_len], m)
     try:
         got = build64(DWTInverse, wave=_mk_wave_arg(cfg, wc, wr, True), mode=mode)((yl, yh))
     except Exception as e:
